@@ -1,13 +1,19 @@
 import Adlt.Merge.Model
 import Adlt.Util.Parse
 /-! glue. case: `<mode> <i0> | r,r,r;r,r;…`   mode: m = merge, M = merge new_or_single_it, c = chain, C = chain new_or_single_it;
-    each source is a `,`-list of reception times (`-` = empty source); own indices of source s are 100*s + pos.
+    each source is a `,`-list of reception times (`-` = empty source, `-*N` = N empty sources); own indices of source s are 100*s + pos.
     obs: `index:src:pos …` -/
 namespace Mrg
 open Util
 
+/-- `-*N` stands for N empty sources -/
+def expandSrcs (l : List String) : List String :=
+  l.flatMap fun src =>
+    let t := src.trimAscii.toString
+    if t.startsWith "-*" then List.replicate (nat! (t.drop 2).toString) "-" else [src]
+
 def parseSrcs (s : String) : List (List MMsg) :=
-  ((s.trimAscii.toString.splitOn ";").filter (· != "")).zipIdx.map fun (src, i) =>
+  (expandSrcs ((s.trimAscii.toString.splitOn ";").filter (· != ""))).zipIdx.map fun (src, i) =>
     if src.trimAscii.toString == "-" then [] else
     ((src.splitOn ",").filter (· != "")).zipIdx.map fun (r, p) => { src := i, pos := p, recv := nat! r, index := 100 * i + p }
 
